@@ -533,6 +533,7 @@ func (in *Interp) mapGet(m *Map, key Value) (Value, bool) {
 }
 
 func (in *Interp) mapSet(m *Map, key, val Value) {
+	m.ver++
 	if e := in.mapFind(m, key); e != nil {
 		e.v = val
 		return
@@ -546,6 +547,7 @@ func (in *Interp) mapDelete(m *Map, key Value) {
 	}
 	for i, e := range m.entries {
 		if in.Branch(in.equal(e.k, key)) {
+			m.ver++
 			m.entries = append(m.entries[:i:i], m.entries[i+1:]...)
 			return
 		}
